@@ -1,6 +1,6 @@
 (* C18 - Rectangle operations agree with plane geometry.
    Statements only; every proof is [exact <lemma>]. *)
-From FrameModel Require Import Num.QcTac Geometry.Rect Geometry.RectFacts Geometry.SplitFacts.
+From FrameModel Require Import Num.QcTac Geometry.Rect Geometry.RectFacts Geometry.SplitFacts Geometry.RectHist.
 Open Scope Qc_scope.
 
 Theorem C18_ov_sym : forall r s, area_overlap r s = area_overlap s r.
@@ -139,3 +139,61 @@ Theorem C18_grid_attrs : forall d nrows ncols g,
                    rw c = rw d / ofnat ncols /\ rh c = rh d / ofnat nrows) g.
 Proof. exact grid_attrs. Qed.
 Print Assumptions C18_grid_attrs.
+
+(* ---------------------------------------------------------------------------------------
+   Object histories (Geometry/RectHist.v): a Rectangle is a mutable object; every method above
+   is a read of its current values.  The theorems above quantify over all rectangles, hence hold
+   of the values an object has at any moment; the statements below say that writes, reads and
+   returned rectangles interact through those values only.
+   --------------------------------------------------------------------------------------- *)
+
+(* a write (by attribute assignment on the Point / Shape, by += or by a setter) changes the named
+   field of the named object and nothing else *)
+Theorem C18_write_frame : forall pool m i f v j, j <> i ->
+  nth_error (gapply pool (GSet m i f v)) j = nth_error pool j.
+Proof. exact gwrite_frame. Qed.
+Print Assumptions C18_write_frame.
+
+Theorem C18_write_field : forall pool m i f v r, nth_error pool i = Some r ->
+  exists r', nth_error (gapply pool (GSet m i f v)) i = Some r' /\
+    get_field r' f = v /\ (forall f', f' <> f -> get_field r' f' = get_field r f') /\
+    fixed r' = fixed r /\ hard r' = hard r /\ region r' = region r /\ rloc r' = rloc r.
+Proof. exact gwrite_field. Qed.
+Print Assumptions C18_write_field.
+
+Theorem C18_flag_frame : forall pool i j, j <> i ->
+  (forall b, nth_error (gapply pool (GFixed i b)) j = nth_error pool j) /\
+  (forall b, nth_error (gapply pool (GHard i b)) j = nth_error pool j) /\
+  (forall s, nth_error (gapply pool (GRegion i s)) j = nth_error pool j).
+Proof. exact gflag_frame. Qed.
+Print Assumptions C18_flag_frame.
+
+Theorem C18_mech_irrelevant : forall pool m m' i f v,
+  gapply pool (GSet m i f v) = gapply pool (GSet m' i f v).
+Proof. exact gmech_irrelevant. Qed.
+Print Assumptions C18_mech_irrelevant.
+
+(* a read changes nothing *)
+Theorem C18_query_pure : forall pool q, gapply pool (GQuery q) = pool.
+Proof. exact gquery_pure. Qed.
+Print Assumptions C18_query_pure.
+
+(* a returned rectangle (piece of a split, intersection, grid cell) is an object of its own *)
+Theorem C18_push_frame : forall pool d j, (j < List.length pool)%nat ->
+  nth_error (gapply pool (GPush d)) j = nth_error pool j.
+Proof. exact gpush_frame. Qed.
+Print Assumptions C18_push_frame.
+
+Theorem C18_push_independent : forall pool d r m i f v,
+  derived_of pool d = Some r -> (i < List.length pool)%nat ->
+  nth_error (gapply (gapply pool (GPush d)) (GSet m i f v)) (List.length pool) = Some r.
+Proof. exact gpush_independent. Qed.
+Print Assumptions C18_push_independent.
+
+(* the record of a history accepted by the correspondence: every read returned what the method
+   returns on the values the objects have after the preceding operations *)
+Theorem C18_hist_check_reads : forall steps pool, ghist_check pool steps = true ->
+  forall pre q o post rest, steps = pre ++ (GQuery q, o, post) :: rest ->
+    query_ok (fold_left gapply (map (fun s : gstep => fst (fst s)) pre) pool) q o = true.
+Proof. exact ghist_check_reads. Qed.
+Print Assumptions C18_hist_check_reads.
